@@ -189,6 +189,7 @@ package cmd
 //@   modifies store.Index.Entries, store.Index.Header, fs
 //@   requires index != nil && store.wfIndex(index)
 //@   requires [not-meta] {C17} !cwdFails() && !relFails(cwd(), path) ==> !hasPrefix(stagedName(path), ".goit/")
+//@   ensures [blob-before-index] {C16,C03} fs[store.indexPath(rootGoitPath)] != old(fs)[store.indexPath(rootGoitPath)] ==> object.stored(fs, rootGoitPath, object.objId(object.BlobObject, content(old(fs), path)), object.BlobObject, content(old(fs), path))
 //@   ensures [wf] {C04,C06} store.wfIndex(index)
 
 //@ func removeFromWorkingTree
